@@ -91,6 +91,16 @@ class SeqRunner:
         self.index_buffer = index_buffer
         self.pid = 1000
 
+    def construct(self, snap, now):
+        """a FastaIndex object made now (its constructor may look at the files), to be loaded later in the history"""
+        v = VFS(bufsize=self.bufsize, coarse=True)
+        v.restore(snap, now)
+        v.install()
+        try:
+            return FastaIndex(Path(FA), self.index_buffer)
+        finally:
+            v.uninstall()
+
     def load(self, snap, now, crash_at=None, fresh_process=True, reuse_obj=None):
         """
         fresh VFS from (snap, now); one auto_load by a fresh virtual pid, killed
@@ -160,7 +170,7 @@ class C15(Check):
         "pruning, unbounded preemptions)"
     )
     rule = (
-        "E2p: every history of <= 5 (7) operations (load by a new object, auto_load again on the history's first object, rewrite, rm .fai, rm .agp) replayed inside one process, in-memory state of the library kept between its loads (each load of E2 and each run of E3 starts from a fresh library state). E2: states = (FASTA content in {A,B,C}, .fai/.agp bytes or absent, order relation of the three mtimes and the clock); transitions = tick, "
+        "E2p: every history of <= 5 (6) operations (load by a new object, auto_load again on the history's first object, construct an object now / load it later, rewrite, rm .fai, rm .agp) replayed inside one process, in-memory state of the library kept between its loads (each load of E2 and each run of E3 starts from a fresh library state). E2: states = (FASTA content in {A,B,C}, .fai/.agp bytes or absent, order relation of the three mtimes and the clock); transitions = tick, "
         "rewrite(X != current, mtime = now), rm .fai, rm .agp, load, load crashed before its k-th file operation for every k; BFS to fixpoint, for stream "
         "buffer sizes {16, 1}, one 8192-buffer run on a cache > 8 KiB, and one run (contents {A,B}) in which the FASTA path is a symbolic link made once and the bytes are rewritten at its target. Invariant after every load: raised, or index and assembly == reference of the "
         "current content; if the cache was missing or not strictly newer, both cache files were (re)written by this load. E3: 2 and 3 virtual processes (in further runs one of them crashes at any of its file operations) "
@@ -196,8 +206,8 @@ class C15(Check):
             out.append(("e2", b))
         out.append(("e2big", 8192))
         out.append(("e2link", 16))
-        for first in range(6):
-            out.append(("e2p", 5 if tier == "quick" else 7, first))
+        for first in range(7):  # (a history cannot begin with load-constructed)
+            out.append(("e2p", 5 if tier == "quick" else 6, first))
         pres = ("none", "stale", "valid", "fai-only")
         for pre in pres:
             out.append(("e3", 2, pre, 16))
@@ -348,14 +358,14 @@ class C15(Check):
         import itertools
 
         # the clock advances after every operation here (equal-mtime coincidences are the business of E2)
-        alphabet = [("load",), ("rewrite", "B"), ("rewrite", "A"), ("rm", "fai"), ("rm", "agp"), ("reload",)]
+        alphabet = [("load",), ("rewrite", "B"), ("rewrite", "A"), ("rm", "fai"), ("rm", "agp"), ("reload",), ("construct",), ("load-constructed",)]
         runner = SeqRunner(16)
         hists = [tuple(tuple(o) for o in replay_hist)] if replay_hist is not None else (
             (alphabet[first], *rest) for k in range(0, depth) for rest in itertools.product(alphabet, repeat=k)
         )
         n = 0
         for hist in hists:
-            if sum(1 for o in hist if o[0] in ("load", "reload")) < 2 and replay_hist is None:
+            if sum(1 for o in hist if o[0] in ("load", "reload", "load-constructed")) < 2 and replay_hist is None:
                 continue  # in-process state can only matter from the second load on
             n += 1
             reset_library_caches()
@@ -364,6 +374,16 @@ class C15(Check):
             snap, now = v0.snapshot(), 2
             cid = "A"
             first_obj = None
+            made = None  # an object constructed earlier in the history and not loaded yet
+            if replay_hist is None:
+                # well-formed histories only: at most one constructed object pending, and it is loaded before the end
+                pending, ok = 0, True
+                for o in hist:
+                    pending += 1 if o[0] == "construct" else (-1 if o[0] == "load-constructed" else 0)
+                    ok = ok and pending in (0, 1)
+                if not ok or pending:
+                    n -= 1
+                    continue
             case = ["e2p", [list(o) for o in hist]]
             ctx.cur = case
             ctx.evaluations += 1
@@ -377,9 +397,16 @@ class C15(Check):
                 elif op[0] == "rm":
                     tgt = FAI if op[1] == "fai" else AGP
                     snap = tuple(x for x in snap if x[0] != tgt)
+                elif op[0] == "construct":
+                    made = runner.construct(snap, now)
+                elif op[0] == "load-constructed" and made is None:
+                    continue
                 else:
                     # "reload": the object of the history's first load is asked again
-                    res, _pts, snap, _log, _f = runner.load(snap, now, None, fresh_process=False, reuse_obj=first_obj if op[0] == "reload" else None)
+                    reuse = first_obj if op[0] == "reload" else (made if op[0] == "load-constructed" else None)
+                    if op[0] == "load-constructed":
+                        made = None
+                    res, _pts, snap, _log, _f = runner.load(snap, now, None, fresh_process=False, reuse_obj=reuse)
                     if first_obj is None:
                         first_obj = runner.last_obj
                     kk = judge(cid, res)
